@@ -1008,6 +1008,9 @@ def run(ctx):
         ctx.log("translator failed: " + tr.stderr.strip()[-300:])
     # 2. prove
     pr = C.prove(ctx, PID, ["c20driver"])
+    if not pr["ok"]:
+        # a failing theorem must not leave a stale driver behind: the model has to follow the new tables
+        C.lake_build(ctx, ["c20driver"])
     # 3. build
     ok, log = C.build_harness(ctx, ["c20"])
     if not ok:
